@@ -67,6 +67,20 @@ def exec (op : String) (ts : List String) (impl : List String) : Option String :
     pure (match lookup ps k with
       | none => "none"
       | some p => joinToks ("some" :: propToks p))
+  | "txt-getters" => do
+    let (ps, ts) ← pProps ts
+    let (k, _) ← P.hex ts
+    -- get_property / get_property_val / get_property_val_str all answer for the FIRST property
+    -- whose key equals the wanted one case-insensitively; a key without a value has the value
+    -- `None` and the string "" (so that presence and absence of a key stay apart)
+    pure (match lookup ps k with
+      | none => "0 none none"
+      | some p =>
+        match p.val with
+        | none => "1 novalue str -"
+        | some v =>
+          let s := if v.any (· ≥ 0x80) then "?" else hexOfBytes v
+          s!"1 val {hexOfBytes v} str {s}")
   | _ => none
 
 /-- every length-prefixed string of an encoded TXT stays inside the buffer (and is
@@ -137,6 +151,29 @@ def monitor (op : String) (ts : List String) (impl : List String) : Option Strin
           if lookup ps k == some p then none else some "lookup-not-first-ci-match"
         | none => some "unparsable-observation"
       | _ => some "unparsable-observation"
+  | "txt-getters" =>
+    match (do
+      let (ps, ts) ← pProps ts
+      let (k, _) ← P.hex ts
+      pure (ps, k) : Option (List TProp × BList)) with
+    | none => some "bad-op"
+    | some (ps, k) =>
+      match impl, lookup ps k with
+      | ["panic"], _ => some "get-panics"
+      | "0" :: _, some _ => some "lookup-misses-key"
+      | "1" :: _, none => some "lookup-finds-absent-key"
+      | ["0", "none", "none"], none => none
+      | "0" :: _, none => some "getters-disagree-on-absent-key"
+      | "1" :: rest, some p =>
+        -- "the difference between no value and an empty value stays intact", through every getter
+        (match p.val, rest with
+         | none, ["novalue", "str", "-"] => none
+         | some v, ["val", v', "str", s] =>
+           if bytesOfHex v' == some v && (s == "?" || bytesOfHex s == some v) then none
+           else some "getter-returns-other-value"
+         | none, _ => some "key-without-value-not-reported-as-present-with-empty-string"
+         | some _, _ => some "getter-returns-other-value")
+      | _, _ => some "unparsable-observation"
   | _ => some "unknown-op"
 
 end Mdns.Driver.C16
